@@ -40,6 +40,14 @@
 #include "Generator_System_defs.hh"
 #include "Congruence_System_defs.hh"
 #include "Grid_Generator_System_defs.hh"
+#include "Linear_Expression_defs.hh"
+#include "Variables_Set_defs.hh"
+#include "Bit_Matrix_defs.hh"
+#include "Dense_Row_defs.hh"
+#include "Sparse_Row_defs.hh"
+#include "Matrix_defs.hh"
+#include "DB_Matrix_defs.hh"
+#include "OR_Matrix_defs.hh"
 #include "Init_defs.hh"
 #undef private
 #undef protected
@@ -203,6 +211,19 @@ template <> void extra_op(Grid& x, Rng& r) {
   }
 }
 
+template <class BOX> void box_extra(BOX& x, Rng& r) {
+  dimension_type d = x.space_dimension();
+  if (d == 0) return;
+  BOX src = BOX(d);
+  for (int k = r.range(1, 3); k-- > 0; ) src.add_constraint(shaped(r, d, SH_BOX, Traits<BOX>::strict()));
+  Variable v(r.range(0, int(d) - 1));
+  if (r.coin(1, 3)) x = BOX(d, EMPTY);                       // set_interval on a marked-empty box: the stale state "-EUP +EM"
+  x.set_interval(v, src.get_interval(v));
+}
+template <> void extra_op(Rational_Box& x, Rng& r) { box_extra(x, r); }
+template <> void extra_op(Z_Box& x, Rng& r) { box_extra(x, r); }
+template <> void extra_op(Double_Box& x, Rng& r) { box_extra(x, r); }
+
 template <class D> D small_random(Rng& r, dimension_type d) {
   D y(d);
   for (int k = r.range(0, 3); k-- > 0; ) y.add_constraint(shaped(r, d, Traits<D>::shape(), Traits<D>::strict()));
@@ -223,6 +244,33 @@ template <> void add_shaped(Grid& x, Rng& r) {
 }
 
 template <class D> void widen(D& x, const D& old) { x.widening_assign(old); }
+
+static Generator_System start_gs(Rng& r, dimension_type d) {
+  Generator_System gs; gs.insert(point(rexpr(r, d, 3, false), r.range(1, 2)));
+  for (int k = r.range(0, 3); k-- > 0; ) gs.insert(rgen(r, d, false));
+  return gs;
+}
+template <class D> void alt_start(D& x, Rng& r, dimension_type d) {       // weakly relational domains and boxes
+  switch (r.range(0, 2)) {
+  case 0: x = D(start_gs(r, d)); break;
+  case 1: { Constraint_System cs; for (int k = r.range(0, 3); k-- > 0; ) cs.insert(shaped(r, d, Traits<D>::shape(), false)); cs.set_space_dimension(d); x = D(cs); } break;
+  default: { C_Polyhedron p(d); for (int k = r.range(0, 3); k-- > 0; ) p.add_constraint(rcon(r, d, false)); x = D(p); } break;
+  }
+}
+template <class PH> void alt_start_poly(PH& x, Rng& r, dimension_type d, bool nnc) {
+  if (r.coin()) { Generator_System gs = start_gs(r, d); if (nnc && r.coin()) gs.insert(closure_point(rexpr(r, d, 3, false))); x = PH(gs); }
+  else { Constraint_System cs; for (int k = r.range(0, 4); k-- > 0; ) cs.insert(rcon(r, d, nnc)); cs.set_space_dimension(d); x = PH(cs); }
+}
+template <> void alt_start(C_Polyhedron& x, Rng& r, dimension_type d) { alt_start_poly(x, r, d, false); }
+template <> void alt_start(NNC_Polyhedron& x, Rng& r, dimension_type d) { alt_start_poly(x, r, d, true); }
+template <> void alt_start(Grid& x, Rng& r, dimension_type d) {
+  if (r.coin()) {              // generators only: con_sys has no rows and a positive dimension
+    Grid_Generator_System gs; gs.insert(grid_point(rexpr(r, d, 3, false), r.range(1, 2)));
+    for (int k = r.range(0, 3); k-- > 0; ) gs.insert(rgg(r, d));
+    gs.set_space_dimension(d); x = Grid(gs);
+  }
+  else { Congruence_System cs(d); for (int k = r.range(0, 3); k-- > 0; ) cs.insert(rcg(r, d)); x = Grid(cs); }
+}
 // Grid::remove_higher_space_dimensions on a minimized grid with virtual dimensions corrupts gen_sys
 // (a later conversion crashes): outside this property (C05); histories avoid it.
 template <class D> bool remove_dims_ok() { return true; }
@@ -235,6 +283,9 @@ template <class D> D make_domain(Rng& r, int steps_lo = 2, int steps_hi = 9) {
   D x(d, em ? EMPTY : UNIVERSE);
   if (trace_on) std::cerr << "make " << Traits<D>::name() << " dim " << d << (em ? " EMPTY" : " UNIVERSE") << std::endl;
   int steps = r.range(steps_lo, steps_hi);
+  // every fourth object starts from the OTHER description (generators / a system / another domain) and is
+  // possibly dumped at once: the lazy state in which the description the dump shows first was never computed
+  if (d > 0 && r.range(0, 3) == 0) { alt_start(x, r, d); steps = r.range(0, 3); }
   for (int s = 0; s < steps; ++s) {
     d = x.space_dimension();
     int op = r.range(0, 15);
@@ -310,7 +361,14 @@ static Constraint_System make_cs(Rng& r) {
   bool nnc = r.coin(1, 3);
   Constraint_System cs;
   if (r.coin(1, 4)) cs = Constraint_System(r.coin() ? DENSE : SPARSE);
+  switch (r.range(0, 5)) {     // degenerate shapes
+  case 0: cs.set_space_dimension(r.range(1, 4)); return cs;                                      // no rows, positive dimension
+  case 1: cs.insert(Constraint::zero_dim_false()); if (r.coin()) cs.insert(Constraint::zero_dim_positivity()); return cs;   // rows, dimension 0
+  case 2: for (int k = r.range(1, 3); k-- > 0; ) cs.insert_pending(rcon(r, d, nnc)); return cs;   // pending rows only
+  default: break;
+  }
   for (int k = r.range(0, 5); k-- > 0; ) cs.insert(rcon(r, d, nnc));
+  if (r.coin(1, 3)) for (int k = r.range(1, 2); k-- > 0; ) cs.insert_pending(rcon(r, d, nnc));
   return cs;
 }
 static Generator_System make_gs(Rng& r) {
@@ -321,12 +379,25 @@ static Generator_System make_gs(Rng& r) {
   dimension_type d = r.range(1, 3);
   bool nnc = r.coin(1, 3);
   Generator_System gs;
+  switch (r.range(0, 5)) {
+  case 0: gs.set_space_dimension(r.range(1, 4)); return gs;
+  case 1: gs.insert(Generator::zero_dim_point()); return gs;
+  case 2: for (int k = r.range(1, 3); k-- > 0; ) gs.insert_pending(rgen(r, d, nnc)); return gs;
+  default: break;
+  }
   for (int k = r.range(0, 5); k-- > 0; ) gs.insert(rgen(r, d, nnc));
+  if (r.coin(1, 3)) gs.insert_pending(rgen(r, d, nnc));
   return gs;
 }
 static Congruence_System make_cgs(Rng& r) {
   if (r.coin()) { Grid g = make_domain<Grid>(r); return Congruence_System(g.con_sys); }
   dimension_type d = r.range(0, 3);
+  switch (r.range(0, 5)) {
+  case 0: return Congruence_System(dimension_type(r.range(1, 4)));                 // no rows, positive dimension
+  case 1: { Congruence_System z; z.insert(Congruence::zero_dim_false()); if (r.coin()) z.insert(Congruence::zero_dim_integrality()); return z; }
+  case 2: { Grid g(r.range(1, 3)); g.add_grid_generator(grid_point(rexpr(r, g.space_dimension(), 3, false))); return Congruence_System(g.con_sys); }
+  default: break;
+  }
   Congruence_System cs;
   for (int k = r.range(0, 5); k-- > 0; ) cs.insert(rcg(r, d));
   return cs;
@@ -334,6 +405,12 @@ static Congruence_System make_cgs(Rng& r) {
 static Grid_Generator_System make_ggs(Rng& r) {
   if (r.coin()) { Grid g = make_domain<Grid>(r); return Grid_Generator_System(g.gen_sys); }
   dimension_type d = r.range(1, 3);
+  switch (r.range(0, 5)) {
+  case 0: return Grid_Generator_System(dimension_type(r.range(1, 4)));             // no rows, positive dimension
+  case 1: { Grid_Generator_System z; z.insert(Grid_Generator::zero_dim_point()); return z; }
+  case 2: { Grid g(r.range(1, 3)); g.add_congruence(rcg(r, g.space_dimension())); return Grid_Generator_System(g.gen_sys); }  // never computed
+  default: break;
+  }
   Grid_Generator_System gs;
   gs.insert(grid_point(rexpr(r, d, 3, false), r.range(1, 2)));
   for (int k = r.range(0, 4); k-- > 0; ) gs.insert(rgg(r, d));
@@ -552,6 +629,82 @@ SYS_MAKER(PIP_Problem, make_pip)
 
 // OK() of the original is the reference: some OK() implementations throw or fail on states the
 // library itself produces (e.g. MIP_Problem after add_space_dimensions_and_embed); 2 = threw
+// ---------------------------------------------------------------------------------------------
+// every other class with an ascii_dump / ascii_load pair, round-tripped on its own
+typedef Checked_Number<mpq_class, Extended_Number_Policy> ExtQ;
+typedef Rational_Box::interval_type RItv;
+#define PLAIN_CLASS(T, NAME, MAKE)                                                                \
+  template <> struct Traits<T > {                                                                 \
+    static const char* name() { return NAME; }                                                    \
+    static unsigned flags(const T&) { return 0; }                                                 \
+    static bool eq(const T& a, const T& b) { return dump(a) == dump(b); }                         \
+  };                                                                                              \
+  template <> struct Maker<T > { static T make(Rng& r) { return MAKE(r); } static T target(Rng& r) { return MAKE(r); } }; \
+  static std::string battery(T& x, uint64_t) { std::ostringstream o; o << "@@DUMP@@\n"; x.ascii_dump(o); return o.str(); }
+
+static Linear_Expression make_le(Rng& r) {
+  switch (r.range(0, 4)) {
+  case 0: return Linear_Expression();
+  case 1: return Linear_Expression(Coefficient(r.range(-9, 9)));
+  case 2: return Linear_Expression(rexpr(r, r.range(1, 4)), SPARSE);
+  default: return Linear_Expression(rexpr(r, r.range(0, 4)), DENSE);
+  }
+}
+static Variables_Set make_vs(Rng& r) { Variables_Set v; for (int k = r.range(0, 4); k-- > 0; ) v.insert(Variable(r.range(0, 7))); return v; }
+static Bit_Matrix make_bm(Rng& r) {
+  if (r.coin(1, 3)) { C_Polyhedron p = make_domain<C_Polyhedron>(r); return Bit_Matrix(r.coin() ? p.sat_c : p.sat_g); }
+  dimension_type nr = r.range(0, 4), nc = r.range(0, 5);
+  Bit_Matrix m(nr, nc);
+  for (dimension_type i = 0; i < nr; ++i) for (dimension_type j = 0; j < nc; ++j) if (r.coin()) m[i].set(j);
+  return m;
+}
+static Dense_Row make_dr(Rng& r) { dimension_type n = r.range(0, 5); Dense_Row x(n); for (dimension_type i = 0; i < n; ++i) if (r.coin()) x[i] = r.range(-9, 9); return x; }
+static Sparse_Row make_sr(Rng& r) { dimension_type n = r.range(0, 6); Sparse_Row x(n); for (dimension_type i = 0; i < n; ++i) if (r.coin(1, 3)) x.insert(i, Coefficient(r.range(-9, 9))); return x; }
+template <class Row> Matrix<Row> make_mat(Rng& r) {
+  dimension_type nr = r.range(0, 3), nc = r.range(0, 4);
+  Matrix<Row> m(nr, nc);
+  for (dimension_type i = 0; i < nr; ++i) for (dimension_type j = 0; j < nc; ++j) if (r.coin()) m[i].insert(j, Coefficient(r.range(-9, 9)));
+  return m;
+}
+static Matrix<Dense_Row> make_dm(Rng& r) { return make_mat<Dense_Row>(r); }
+static Matrix<Sparse_Row> make_sm(Rng& r) { return make_mat<Sparse_Row>(r); }
+static DB_Matrix<ExtQ> make_dbm(Rng& r) { BD_Shape<mpq_class> b = make_domain<BD_Shape<mpq_class> >(r); return DB_Matrix<ExtQ>(b.dbm); }
+static OR_Matrix<ExtQ> make_orm(Rng& r) { Octagonal_Shape<mpq_class> b = make_domain<Octagonal_Shape<mpq_class> >(r); return OR_Matrix<ExtQ>(b.matrix); }
+static Constraint make_crow(Rng& r) {
+  switch (r.range(0, 5)) {
+  case 0: return Constraint::zero_dim_false();
+  case 1: return Constraint::zero_dim_positivity();
+  case 2: return Constraint::epsilon_leq_one();
+  default: return rcon(r, r.range(0, 3), r.coin());
+  }
+}
+static Generator make_grow(Rng& r) { if (r.coin(1, 5)) return Generator::zero_dim_point(); return rgen(r, r.range(1, 3), r.coin()); }
+static Congruence make_cgrow(Rng& r) { if (r.coin(1, 5)) return r.coin() ? Congruence::zero_dim_false() : Congruence::zero_dim_integrality(); return rcg(r, r.range(0, 3)); }
+static Grid_Generator make_ggrow(Rng& r) { if (r.coin(1, 5)) return Grid_Generator::zero_dim_point(); return rgg(r, r.range(1, 3)); }
+static RItv make_itv(Rng& r) {
+  Rational_Box b = make_domain<Rational_Box>(r);
+  if (b.space_dimension() == 0 || b.marked_empty()) { RItv i; i.assign(r.coin() ? UNIVERSE : EMPTY); return i; }
+  return b.get_interval(Variable(0));
+}
+PLAIN_CLASS(Linear_Expression, "Linear_Expression", make_le)
+PLAIN_CLASS(Variables_Set, "Variables_Set", make_vs)
+PLAIN_CLASS(Bit_Matrix, "Bit_Matrix", make_bm)
+PLAIN_CLASS(Dense_Row, "Dense_Row", make_dr)
+PLAIN_CLASS(Sparse_Row, "Sparse_Row", make_sr)
+PLAIN_CLASS(Matrix<Dense_Row>, "Matrix_Dense_Row", make_dm)
+PLAIN_CLASS(Matrix<Sparse_Row>, "Matrix_Sparse_Row", make_sm)
+PLAIN_CLASS(DB_Matrix<ExtQ>, "DB_Matrix_mpq", make_dbm)
+PLAIN_CLASS(OR_Matrix<ExtQ>, "OR_Matrix_mpq", make_orm)
+PLAIN_CLASS(Constraint, "Constraint", make_crow)
+PLAIN_CLASS(Generator, "Generator", make_grow)
+PLAIN_CLASS(Congruence, "Congruence", make_cgrow)
+PLAIN_CLASS(Grid_Generator, "Grid_Generator", make_ggrow)
+PLAIN_CLASS(RItv, "Rational_Interval", make_itv)
+
+// a default-constructed load target (OR_Matrix declares a default constructor it does not define)
+template <class T> T fresh() { return T(); }
+template <> OR_Matrix<ExtQ> fresh() { return OR_Matrix<ExtQ>(0); }
+
 template <class T> int ok_of(const T& x) { try { return x.OK() ? 1 : 0; } catch (const std::exception&) { return 2; } }
 
 template <class T> void run_one(long idx, uint64_t seed) {
@@ -561,7 +714,7 @@ template <class T> void run_one(long idx, uint64_t seed) {
   const std::string d1 = dump(x);
   const unsigned xflags = Traits<T>::flags(x);
   // (i) (ii) (iii) and semantic equality
-  T y;
+  T y = fresh<T>();
   bool ok = load(y, d1);
   std::string d2 = ok ? dump(y) : std::string();
   const int okx = ok_of(x);
@@ -598,7 +751,7 @@ template <class T> void run_one(long idx, uint64_t seed) {
       for (int kind = 0; kind < 2; ++kind) {
         std::string m = kind == 0 ? join(tk, pos[k], -1) : join(tk, -1, pos[k]);
         std::cout << "MB " << idx << ' ' << pos[k] << ' ' << (kind == 0 ? 'D' : 'R') << std::endl;
-        T z;
+        T z = fresh<T>();
         bool acc = load(z, m);
         std::cout << "M " << idx << ' ' << pos[k] << ' ' << (kind == 0 ? 'D' : 'R') << ' ' << (acc ? 1 : 0) << std::endl;
       }
@@ -658,6 +811,27 @@ template <class D> void witness(unsigned tgt, unsigned st) {
             << " result=" << unsigned(t.status.flags) << " same=" << (ok && dump(t) == d1) << std::endl;
 }
 
+// every status word the dump can print, loaded into a default-constructed object, into every single-flag word,
+// into the blank word and into the all-flags word
+template <class D> void status_all(const char* cls, unsigned nbits) {
+  std::vector<long> tgts; tgts.push_back(-1);                       // -1: default-constructed target
+  tgts.push_back(0); tgts.push_back((1L << nbits) - 1);
+  for (unsigned b = 0; b < nbits; ++b) tgts.push_back(1L << b);
+  for (size_t k = 0; k < tgts.size(); ++k)
+    for (unsigned st = 0; st < (1u << nbits); ++st) {
+      D x(1); x.status.flags = st;
+      std::string d1 = dump(x);
+      D t0; D t1(1);
+      D& t = tgts[k] < 0 ? t0 : t1;
+      if (tgts[k] >= 0) t.status.flags = unsigned(tgts[k]);
+      unsigned tw = unsigned(t.status.flags);
+      bool ok = load(t, d1);
+      std::string d2 = ok ? dump(t) : std::string();
+      std::cout << "S " << cls << ' ' << (tgts[k] < 0 ? "fresh" : "forced") << ' ' << tw << ' ' << st << ' ' << ok << ' '
+                << unsigned(t.status.flags) << ' ' << (ok && d2 == d1) << "\n";
+    }
+}
+
 template <class D> void base_dom() {
   for (dimension_type d = 0; d <= 4; ++d) {
     std::cout << "BASE " << Traits<D>::name() << ' ' << std::hash<std::string>()(dump(D(d, UNIVERSE))) << "\n";
@@ -690,13 +864,21 @@ int main(int argc, char** argv) {
     else if (c == "box") witness<Rational_Box>(tgt, st);
     return 0;
   }
+  if (argc >= 2 && std::string(argv[1]) == "statusall") {
+    status_all<C_Polyhedron>("ph", 9); status_all<NNC_Polyhedron>("ph", 9); status_all<Grid>("grid", 9);
+    status_all<BD_Shape<mpq_class> >("bds", 3); status_all<BD_Shape<double> >("bds", 3);
+    status_all<Octagonal_Shape<mpq_class> >("og", 2); status_all<Octagonal_Shape<double> >("og", 2);
+    status_all<Rational_Box>("box", 3); status_all<Z_Box>("box", 3); status_all<Double_Box>("box", 3);
+    std::cout << "DONE statusall" << std::endl;
+    return 0;
+  }
   if (argc < 4) { std::cerr << "usage: run_codec <seed> <count> <objs-file> [maxmut]\n"; return 2; }
   uint64_t seed = std::strtoull(argv[1], 0, 10);
   long count = std::atol(argv[2]);
   objs.open(argv[3]);
   if (argc >= 5) maxmut = std::atoi(argv[4]);
   baselines();
-  const int NCLS = 21;
+  const int NCLS = 35;
   for (long i = 0; i < count; ++i) {
     uint64_t s = seed * 1000003ULL + uint64_t(i) * 7919ULL + 17ULL;
     switch (i % NCLS) {
@@ -720,6 +902,20 @@ int main(int argc, char** argv) {
     case 17: run_one<Grid_Generator_System>(i, s); break;
     case 18: run_one<MIP_Problem>(i, s); break;
     case 19: run_one<PIP_Problem>(i, s); break;
+    case 20: run_one<Linear_Expression>(i, s); break;
+    case 21: run_one<Variables_Set>(i, s); break;
+    case 22: run_one<Bit_Matrix>(i, s); break;
+    case 23: run_one<Dense_Row>(i, s); break;
+    case 24: run_one<Sparse_Row>(i, s); break;
+    case 25: run_one<Matrix<Dense_Row> >(i, s); break;
+    case 26: run_one<Matrix<Sparse_Row> >(i, s); break;
+    case 27: run_one<DB_Matrix<ExtQ> >(i, s); break;
+    case 28: run_one<OR_Matrix<ExtQ> >(i, s); break;
+    case 29: run_one<Constraint>(i, s); break;
+    case 30: run_one<Generator>(i, s); break;
+    case 31: run_one<Congruence>(i, s); break;
+    case 32: run_one<Grid_Generator>(i, s); break;
+    case 33: run_one<RItv>(i, s); break;
     default: run_one<NNC_Polyhedron>(i, s); break;
     }
   }
